@@ -49,7 +49,7 @@ pub unsafe extern "C" fn bcmp(a: *const u8, b: *const u8, n: usize) -> i32 {
     0
 }
 
-const RULE: &str = "generated: (request, key) pairs from the completeness generator (small requests, both carriers); for each, the expected signature (reference model) with ONE character at position p replaced by another of the same class (digit->digit, letter->letter), 'everything from p on wrong' variants, a different replacement character at p, and two-character variants that keep every order-independent digest of the string unchanged (successor at p / predecessor at another place: same byte sum; two unequal characters of one class exchanged: same multiset). Observed: the instruction-address trace (rolling hash + step count) of the complete sigv4_validate_request call in a forked child single-stepped with ptrace, under a harness-supplied byte-wise early-exit memcmp/bcmp. Every second request is validated with a TRACE-level logger that renders every record, so the formatting code behind the library's trace!/debug! calls is part of the trace. Oracle (metamorphic): for a fixed request and key the trace is identical for every p; the first variant is traced twice and a difference there makes the run inconclusive, never a violation. Non-trivial: a variant that the crate refuses with the signature-mismatch error (it reached the comparison) and whose trace was recorded; distinct by (request digest, position, kind of variant).";
+const RULE: &str = "generated: (request, key) pairs from the completeness generator (small requests, both carriers); for each, the expected signature (reference model) with ONE character at position p replaced by another of the same class (digit->digit, letter->letter), 'everything from p on wrong' variants, a different replacement character at p, and two-character variants that keep every order-independent digest of the string unchanged (successor at p / predecessor at another place: same byte sum; two unequal characters of one class exchanged: same multiset). Observed: the instruction-address trace (rolling hash + step count) of the complete sigv4_validate_request call in a forked child single-stepped with ptrace, under a harness-supplied byte-wise early-exit memcmp/bcmp. The traced refusal is the N-th refusal of its process for a round N per request (10000, 1000, 4096, 100, ...; the preceding ones run untraced in the same process). Every second request is validated with a TRACE-level logger that renders every record, so the formatting code behind the library's trace!/debug! calls is part of the trace. Oracle (metamorphic): for a fixed request and key the trace is identical for every p; the first variant is traced twice and a difference there makes the run inconclusive, never a violation. Non-trivial: a variant that the crate refuses with the signature-mismatch error (it reached the comparison) and whose trace was recorded; distinct by (request digest, position, kind of variant).";
 
 #[derive(Clone, Copy, Default)]
 struct TraceResult {
@@ -135,6 +135,9 @@ struct Target {
     sig: String,
     /// validate with a TRACE-level logger that renders every record (the formatting code of trace!/debug! runs)
     logged: bool,
+    /// refused validations the tracee performs (untraced) before the traced one, so that the traced refusal is the
+    /// N-th of its process for a round N (sampled / rate-limited reporting paths)
+    warm: u32,
 }
 
 /// Trace one validation in a forked child. Uses no heap in the parent.
@@ -158,6 +161,13 @@ unsafe fn trace_one(t: &Target, p: usize, tail: u8, max_steps: u64, block_step: 
         let mut prov = exec::Prov::new(case.prov.clone());
         let now = exec::to_datetime(case.cfg.now).unwrap();
         let opts = scratchstack_aws_signature::SignatureOptions { s3: case.cfg.s3, url_encode_form: case.cfg.fold };
+        if t.warm > 0 {
+            let mut wc = t.case.clone();
+            let _ = replace_signature(&mut wc.req, &t.sig, &variant_sig(&t.sig, 5, ONE));
+            for _ in 0..t.warm {
+                let _ = exec::run(&wc);
+            }
+        }
         exec::set_log_buffer(t.logged);
         libc::raise(libc::SIGSTOP);
         let (r, _) = exec::block_on(
@@ -254,7 +264,7 @@ fn targets(seed: u64, n: usize) -> Vec<(Plan, Target)> {
         }
         // every second request is validated with trace logging switched on
         let logged = out.len() % 2 == 1;
-        out.push((p, Target { case: b.case.clone(), sig: b.signed.signature.clone(), logged }));
+        out.push((p, Target { case: b.case.clone(), sig: b.signed.signature.clone(), logged, warm: 0 }));
     }
     out
 }
@@ -308,7 +318,7 @@ fn main() {
         };
         let b = p.build().expect("replay plan builds");
         let logged = v["case"]["logged"].as_bool().unwrap_or(false);
-        (vec![(p, Target { case: b.case.clone(), sig: b.signed.signature.clone(), logged })], (0..64).collect(), vec![0, 32], (0..64).step_by(4).collect())
+        (vec![(p, Target { case: b.case.clone(), sig: b.signed.signature.clone(), logged, warm: 0 })], (0..64).collect(), vec![0, 32], (0..64).step_by(4).collect())
     } else {
         let n = tier.pick(2, 8) as usize;
         let pos: Vec<usize> = if tier == Tier::Thorough { (0..64).collect() } else { (0..64).step_by(4).chain(std::iter::once(63)).collect() };
@@ -353,6 +363,19 @@ fn main() {
         let _ = exec::with_logs(|| exec::run(&c));
         let _ = exec::with_logs(|| exec::run(&c));
     }
+
+    // the parent has refused 3 requests per target so far; each tracee adds as many as it takes to make the traced
+    // refusal the N-th of its process, N a round number that differs per target
+    const NTH: [u32; 8] = [10_000, 1_000, 4_096, 100, 65_536, 256, 50_000, 16];
+    let mut tg = tg;
+    let done = 3 * tg.len() as u32;
+    let mut nths = Vec::new();
+    for (i, (_, t)) in tg.iter_mut().enumerate() {
+        let nth = NTH[i % NTH.len()].max(done + 1);
+        t.warm = nth - 1 - done;
+        nths.push(nth);
+    }
+    ctx.extra("traced_refusal_is_the_nth_of_its_process", json!(nths));
 
     // ---- tracer processes. Everything they need is allocated BEFORE the first fork and nothing is
     // allocated between forks, so every tracer (and therefore every tracee) starts from the same image.
